@@ -9,7 +9,7 @@ jq -r --arg id "$prop" 'select(.id==$id) | "Property \(.id): \(.title)\n\nStatem
 if [ -n "$focus" ]; then printf '\nWhere to look first (areas nobody has examined closely yet):\n%s\n' "$focus" >> $OUT/property.txt; fi
 {
   echo "Open defects (known, not repaired):"
-  jq -r '.findings[] | "- [\(.property)] \(.construct): \(.what_fails // .what | )"' /verif/known-findings.json | sort -u
+  jq -r '.findings[] | "- [\(.property)] \(.construct): \(.what_fails // .what)"' /verif/known-findings.json | sort -u
   echo
   echo "Defects already repaired in your copy (the commit log of your worktree shows each as a 'fix:' commit — read \`git log --oneline | grep fix:\`):"
   git -C /repo log --format='- %s' | grep '^- fix:'
